@@ -72,10 +72,16 @@ func runC18(c *core.Ctx) {
 	for _, fn := range []*ssa.Function{put, get, rem} {
 		an := c.Analyze(fn)
 		for _, p := range an.AllPaths() {
-			for _, st := range p.Events(ir.KCall) {
-				if st.Static != nil && len(st.A) == 2 && paramOf(st.A[0], fn, 0) && paramOf(st.A[1], fn, 1) {
-					trav[st.Static] = true
-					travOf[fn] = st.Static
+			for i := range p.Steps {
+				st := &p.Steps[i]
+				// called (it holds the loops itself) or entered (a thin wrapper over a shared traversal, inlined here)
+				if (st.Kind == ir.KCall || st.Kind == ir.KEnter && st.Depth == 0) && st.Static != nil && len(st.A) == 2 && paramOf(st.A[0], fn, 0) && paramOf(st.A[1], fn, 1) {
+					tf := st.Static
+					if tf.Origin() != nil {
+						tf = tf.Origin()
+					}
+					trav[tf] = true
+					travOf[fn] = tf
 				}
 			}
 		}
@@ -139,7 +145,7 @@ func runC18(c *core.Ctx) {
 	// Get
 	{
 		name := "skiplist.Get"
-		an := c.Analyze(get)
+		an := c.AnalyzeLoopsExcept(get, travOf[get]) // the traversal stays one call, thin wrapper or not
 		ok := len(an.Problems) == 0
 		why := ""
 		nHit := 0
